@@ -1,6 +1,7 @@
 package litefs
 
 import (
+	"bytes"
 	"context"
 	"encoding/binary"
 	"fmt"
@@ -96,6 +97,19 @@ func WriteStreamFrame(w io.Writer, f StreamFrame) error {
 	return err
 }
 
+// readBytes reads exactly n bytes from r. The buffer grows as data arrives so
+// that a length prefix received from the network cannot force an allocation
+// larger than the data that actually follows it.
+func readBytes(r io.Reader, n uint32) ([]byte, error) {
+	var buf bytes.Buffer
+	if _, err := io.CopyN(&buf, r, int64(n)); err == io.EOF {
+		return nil, io.ErrUnexpectedEOF
+	} else if err != nil {
+		return nil, err
+	}
+	return buf.Bytes(), nil
+}
+
 type LTXStreamFrame struct {
 	Size int64  // payload size
 	Name string // database name
@@ -120,10 +134,8 @@ func (f *LTXStreamFrame) ReadFrom(r io.Reader) (int64, error) {
 		return 0, err
 	}
 
-	name := make([]byte, nameN)
-	if _, err := io.ReadFull(r, name); err == io.EOF {
-		return 0, io.ErrUnexpectedEOF
-	} else if err != nil {
+	name, err := readBytes(r, nameN)
+	if err != nil {
 		return 0, err
 	}
 	f.Name = string(name)
@@ -173,10 +185,8 @@ func (f *DropDBStreamFrame) ReadFrom(r io.Reader) (int64, error) {
 		return 0, err
 	}
 
-	name := make([]byte, nameN)
-	if _, err := io.ReadFull(r, name); err == io.EOF {
-		return 0, io.ErrUnexpectedEOF
-	} else if err != nil {
+	name, err := readBytes(r, nameN)
+	if err != nil {
 		return 0, err
 	}
 	f.Name = string(name)
@@ -208,10 +218,8 @@ func (f *HandoffStreamFrame) ReadFrom(r io.Reader) (int64, error) {
 		return 0, err
 	}
 
-	leaseID := make([]byte, n)
-	if _, err := io.ReadFull(r, leaseID); err == io.EOF {
-		return 0, io.ErrUnexpectedEOF
-	} else if err != nil {
+	leaseID, err := readBytes(r, n)
+	if err != nil {
 		return 0, err
 	}
 	f.LeaseID = string(leaseID)
@@ -253,10 +261,8 @@ func (f *HWMStreamFrame) ReadFrom(r io.Reader) (int64, error) {
 		return 0, err
 	}
 
-	name := make([]byte, nameN)
-	if _, err := io.ReadFull(r, name); err == io.EOF {
-		return 0, io.ErrUnexpectedEOF
-	} else if err != nil {
+	name, err := readBytes(r, nameN)
+	if err != nil {
 		return 0, err
 	}
 	f.Name = string(name)
